@@ -105,12 +105,15 @@ CLAIMED = {
     "C05": dict(
         text="Proof: for every kernel of the model (wsm, ratio, refpoint, topsis over the five metrics, wpm, fmf, multimoora) row-permutation "
              "equivariance (scores follow the alternative), invariance under permuting criteria together with objectives and weights, the "
-             "exact effect of scaling all weights by c > 0 (score scaled / similarity unchanged / constant shift), and that dense ranks "
-             "follow the alternative and are unchanged by strictly increasing maps of the scores; relabeling acts on names only. ELECTRE "
-             "and the transformers in front are covered by the harness only. Tie: both presentations run on the real code and compared by "
-             "label under the margin rule (rank numbers never compared across runs); the Lean model compared with itself exactly.",
-        note=NOTE + "Pairs closer than 2e-9*scale and ill-conditioned pipelines (noise amplified > 1e4) are skipped and counted; ELECTRE/transformer invariance is validated, not proved.",
-        technique="Lean 4 permutation / scaling theorems on the kernel model (Equiv.sum_comp, sup' under permutations) + metamorphic differential check by label",
+             "exact effect of scaling all weights by c > 0, and that dense ranks follow the alternative and are unchanged by strictly "
+             "increasing maps of the scores; ELECTRE: concordance, discordance, ELECTRE1 relation and kernel, weight-comparison relation "
+             "follow the alternatives and ignore criterion order, and the ELECTRE2 distillation, inverse and final rankings are equivariant "
+             "under any relabelling (induction over the rounds); every scaler / inverter / weighter of the model commutes with permuting "
+             "the problem, hence every finite pipeline does (induction over the step list) and the score of each named alternative is "
+             "presentation-independent. Tie: both presentations (rebuilt with mkdm, or derived through dm[...] / loc / iloc) run on the real "
+             "code and compared by label under the margin rule; the Lean model compared with itself exactly.",
+        note=NOTE + "Pairs closer than 2e-9*scale (relative to each presentation's own scale) and ill-conditioned pipelines (noise amplified > 1e4) are skipped and counted.",
+        technique="Lean 4 permutation / scaling theorems on the kernel, ELECTRE and transformer models (Equiv.sum_comp, sup' under permutations, induction over rounds and pipelines) + metamorphic differential check by label",
     ),
     "C10": dict(
         text="Proof: on a record model of to_dict -> _transform_data -> from_mcda_data, each transformer family changes only its declared parts "
